@@ -108,6 +108,9 @@ struct Case {
     warn: Vec<&'static str>,
     /// permanent channel id handed to setup_channel (None: the channel keeps its initial id only)
     perm_id: Option<[u8; 32]>,
+    /// extra policy filter for the HTLC stage: 0 none, 1 warn on the tag policy-htlc-other,
+    /// 2 warn on the prefix policy-htlc-, 3 the permissive filter
+    filter_mode: u8,
 }
 
 fn ctype_of(c: u8) -> CommitmentType {
@@ -360,6 +363,7 @@ fn gen_case(seed: u64, idx: usize, tier: &str) -> Case {
         node_seed,
         warn,
         perm_id,
+        filter_mode: 0,
     }
 }
 
@@ -424,6 +428,16 @@ impl Live {
 fn make_live(secp: &Secp256k1<All>, c: &Case) -> Option<Live> {
     let mut policy = World::default_policy();
     policy.filter = PolicyFilter { rules: c.warn.iter().map(|t| FilterRule::new_warn(*t)).collect() };
+    match c.filter_mode {
+        1 => policy.filter.rules.push(FilterRule::new_warn("policy-htlc-other")),
+        2 => policy.filter.rules.push(FilterRule {
+            tag: "policy-htlc-".to_string(),
+            is_prefix: true,
+            action: lightning_signer::policy::filter::FilterResult::Warn,
+        }),
+        3 => policy.filter = PolicyFilter::new_permissive(),
+        _ => {}
+    }
     let world = World::new(policy, c.node_seed, KeyDerivationStyle::Native);
     let node = world.new_node();
     let peer = pk_of(secp, &[9u8; 32]).serialize();
@@ -1422,6 +1436,164 @@ fn wire_phase1(h: &ChannelHandler, c: &Case, pcp: &PublicKey, cp_funding: &Publi
     }
 }
 
+// ------------------------------------------------------------------ raw HTLC-transaction entry point
+
+fn tx_coq(t: &Transaction) -> String {
+    let ins = t
+        .input
+        .iter()
+        .map(|i| {
+            format!(
+                "(mkIn {} {} {} {} {})",
+                hx(&i.previous_output.txid.to_byte_array()),
+                i.previous_output.vout,
+                hx(i.script_sig.as_bytes()),
+                i.sequence.0,
+                coq_list(&i.witness.iter().map(|w| hx(w)).collect::<Vec<_>>())
+            )
+        })
+        .collect::<Vec<_>>();
+    let outs = t
+        .output
+        .iter()
+        .map(|o| format!("(mkOut {} {})", o.value.to_sat(), hx(o.script_pubkey.as_bytes())))
+        .collect::<Vec<_>>();
+    format!("(mkTx {} {} {} {})", t.version.0 as u32, coq_list(&ins), coq_list(&outs), t.lock_time.to_consensus_u32())
+}
+
+fn ldk_features(ctype: u8) -> ChannelTypeFeatures {
+    let mut features = ChannelTypeFeatures::only_static_remote_key();
+    match ctype {
+        2 => features.set_anchors_nonzero_fee_htlc_tx_optional(),
+        3 => features.set_anchors_zero_fee_htlc_tx_optional(),
+        _ => {}
+    }
+    features
+}
+
+/// direction of an HTLC script as LDK builds it: after `... <33-byte key> OP_SWAP OP_SIZE 32 OP_EQUAL`
+/// comes OP_NOTIF (offered) or OP_IF (received)
+fn script_is_offered(redeem: &[u8]) -> Option<bool> {
+    match redeem.get(66) {
+        Some(0x64) => Some(true),
+        Some(0x63) => Some(false),
+        _ => None,
+    }
+}
+
+/// The BOLT-3 second-stage transaction a raw HTLC request is about, rebuilt by the harness with
+/// LDK's `build_htlc_transaction` from the channel's own delay and keys (derived here) and from
+/// what the request says (commitment txid and output index, expiry, fee = amount - output value,
+/// turned into a fee rate the way the signer's estimate does); `None` when the request does not
+/// determine one.
+fn reference_htlc_tx(
+    ctype: u8,
+    delay: u16,
+    revocation: &PublicKey,
+    delayed: &PublicKey,
+    tx: &Transaction,
+    redeem: &[u8],
+    amount: u64,
+) -> Option<Transaction> {
+    let offered = script_is_offered(redeem)?;
+    let i0 = tx.input.first()?;
+    let o0 = tx.output.first()?;
+    let fee = amount.checked_sub(o0.value.to_sat())?;
+    let feerate: u32 = if ctype == 3 {
+        0
+    } else {
+        let w: u128 = if offered { 663 } else { 703 };
+        u32::try_from((fee as u128 * 1000 + 999) / w).unwrap_or(u32::MAX)
+    };
+    let htlc = HTLCOutputInCommitment {
+        offered,
+        amount_msat: amount.checked_mul(1000)?,
+        cltv_expiry: if offered { tx.lock_time.to_consensus_u32() } else { 0 },
+        payment_hash: PaymentHash([0; 32]),
+        transaction_output_index: Some(i0.previous_output.vout),
+    };
+    catch_unwind(AssertUnwindSafe(|| {
+        lightning_signer::lightning::ln::chan_utils::build_htlc_transaction(
+            &i0.previous_output.txid,
+            feerate,
+            delay,
+            &htlc,
+            &ldk_features(ctype),
+            &DelayedPaymentKey(*delayed),
+            &RevocationKey(*revocation),
+        )
+    }))
+    .ok()
+}
+
+fn htlc_digest(tx: &Transaction, redeem: &[u8], amount: u64, ctype: u8) -> Option<[u8; 32]> {
+    let ty = if ctype == 3 { EcdsaSighashType::SinglePlusAnyoneCanPay } else { EcdsaSighashType::All };
+    SighashCache::new(tx)
+        .p2wsh_signature_hash(0, Script::from_bytes(redeem), Amount::from_sat(amount), ty)
+        .ok()
+        .map(|h| h.to_byte_array())
+}
+
+/// single-field changes of a second-stage transaction and of the other request fields
+fn htlc_requests(rng: &mut Rng, htx: &Transaction, redeem: &[u8], amount: u64) -> Vec<(String, Transaction, Vec<u8>, u64)> {
+    let mut out = vec![("canonical".to_string(), htx.clone(), redeem.to_vec(), amount)];
+    let mut push = |name: &str, f: &dyn Fn(&mut Transaction)| {
+        let mut t = htx.clone();
+        f(&mut t);
+        out.push((name.to_string(), t, redeem.to_vec(), amount));
+    };
+    push("version", &|t| t.version = Version(1));
+    push("version", &|t| t.version = Version(3));
+    push("locktime", &|t| t.lock_time = LockTime::from_consensus(t.lock_time.to_consensus_u32() ^ 1));
+    push("locktime", &|t| t.lock_time = LockTime::from_consensus(t.lock_time.to_consensus_u32().wrapping_add(144) % 500_000_000));
+    push("sequence", &|t| t.input[0].sequence = Sequence(t.input[0].sequence.0 ^ 1));
+    push("sequence", &|t| t.input[0].sequence = Sequence(0xffff_fffd));
+    push("outpoint", &|t| t.input[0].previous_output.vout ^= 1);
+    push("outpoint", &|t| {
+        let mut b = t.input[0].previous_output.txid.to_byte_array();
+        b[7] ^= 0x10;
+        t.input[0].previous_output.txid = Txid::from_byte_array(b)
+    });
+    push("value", &|t| t.output[0].value = Amount::from_sat(t.output[0].value.to_sat() + 1));
+    push("value", &|t| t.output[0].value = Amount::from_sat(t.output[0].value.to_sat().saturating_sub(1)));
+    push("value", &|t| t.output[0].value = Amount::from_sat(t.output[0].value.to_sat().saturating_sub(1000)));
+    for _ in 0..4 {
+        let j = 2 + rng.below(32) as usize;
+        let b = nonzero(rng);
+        push("output_script", &move |t| {
+            let mut s = t.output[0].script_pubkey.to_bytes();
+            if j < s.len() {
+                s[j] ^= b;
+            }
+            t.output[0].script_pubkey = ScriptBuf::from(s)
+        });
+    }
+    push("output_script", &|t| {
+        let mut wp = vec![0u8, 0x14];
+        wp.extend_from_slice(&[0x22u8; 20]);
+        t.output[0].script_pubkey = ScriptBuf::from(wp)
+    });
+    push("output_count", &|t| {
+        let o = t.output[0].clone();
+        t.output.push(o)
+    });
+    push("input_count", &|t| {
+        let i = t.input[0].clone();
+        t.input.push(i)
+    });
+    push("script_sig", &|t| t.input[0].script_sig = ScriptBuf::from(vec![0x51u8]));
+    out.push(("amount".into(), htx.clone(), redeem.to_vec(), amount + 1));
+    out.push(("amount".into(), htx.clone(), redeem.to_vec(), amount.saturating_sub(1)));
+    let mut r2 = redeem.to_vec();
+    r2.pop();
+    out.push(("redeemscript".into(), htx.clone(), r2, amount));
+    let mut r3 = redeem.to_vec();
+    let j = rng.below(r3.len() as u64) as usize;
+    r3[j] ^= nonzero(rng);
+    out.push(("redeemscript".into(), htx.clone(), r3, amount));
+    out
+}
+
 fn verify(secp: &Secp256k1<All>, tx: &Transaction, idx: usize, script: &Script, amount: u64, ty: EcdsaSighashType, sig: &Signature, pk: &PublicKey) -> bool {
     let h = match SighashCache::new(tx).p2wsh_signature_hash(idx, script, Amount::from_sat(amount), ty) {
         Ok(h) => h,
@@ -1809,6 +1981,163 @@ fn run(args: &Args) {
                     *dist.entry("wire-checked:fractional-satoshi-htlc".into()).or_insert(0) += 1;
                 }
             }
+        }
+        // raw HTLC-transaction entry points under the default filter and under filters that demote
+        // policy-htlc-other / the policy-htlc- prefix / everything: the BOLT-3 second-stage
+        // transactions of this commitment (the model's), and single-field changes of them
+        if !m.htx.is_empty() && c.ctype != 2 && idx % 2 == 1 {
+            let cp = cp_points(&secp, &c);
+            // the holder-side entry point gets a per-commitment point of its own
+            let hpoint = pk_of(&secp, &[0x55u8; 32]);
+            let h_rev = derive_revocation(&secp, &hpoint, &cp.revocation_basepoint.0);
+            let h_delayed = derive_pub(&secp, &hpoint, &a.holder.delayed_payment_basepoint.0);
+            let h_key = derive_pub(&secp, &hpoint, &a.holder.htlc_basepoint.0);
+            let lives: Vec<Option<Live>> = (0..4u8)
+                .map(|mode| {
+                    let mut cm = c.clone();
+                    cm.filter_mode = mode;
+                    make_live(&secp, &cm)
+                })
+                .collect();
+            let (s_cp, k_cp, _) = gen_coq(&secp, &c, &a.holder, &k);
+            let mut ch = c.clone();
+            ch.hdelay = c.cdelay;
+            let kh = Keys { revocation: h_rev, delayed: h_delayed, b_htlc: k.b_htlc, c_htlc: k.c_htlc, obscure: k.obscure, pcp: hpoint };
+            let (s_h, k_h, _) = gen_coq(&secp, &ch, &a.holder, &kh);
+            let mut reqs_cp: Vec<String> = vec![];
+            let mut reqs_h: Vec<String> = vec![];
+            let mut descs: Vec<serde_json::Value> = vec![];
+            for raw in m.htx.iter().take(2) {
+                let htx: Transaction = match deserialize(raw) {
+                    Ok(t) => t,
+                    Err(_) => continue,
+                };
+                let vout = htx.input[0].previous_output.vout as usize;
+                if vout >= m.ws.len() {
+                    continue;
+                }
+                let redeem0 = m.ws[vout].clone();
+                let amount0 = mtx.output[vout].value.to_sat();
+                for holder_side in [false, true] {
+                    let (delay, rev, delayed, key) = if holder_side {
+                        (c.cdelay, h_rev, h_delayed, h_key)
+                    } else {
+                        (c.hdelay, k.revocation, k.delayed, k.c_htlc)
+                    };
+                    // the canonical transaction of this entry point: rebuilt from the model's one
+                    let base = match reference_htlc_tx(c.ctype, delay, &rev, &delayed, &htx, &redeem0, amount0) {
+                        Some(t) => t,
+                        None => continue,
+                    };
+                    if !holder_side && serialize(&base) != *raw {
+                        viol.push(json!({"what": "the model's HTLC transaction differs from the BOLT-3 one LDK's build_htlc_transaction gives for the harness's reading of it",
+                                         "model_htlc_tx": hexs(raw), "reference": hexs(&serialize(&base))}));
+                    }
+                    for (what, tx, redeem, amount) in htlc_requests(&mut rng, &base, &redeem0, amount0) {
+                        let reference = reference_htlc_tx(c.ctype, delay, &rev, &delayed, &tx, &redeem, amount);
+                        let d_sup = htlc_digest(&tx, &redeem, amount, c.ctype);
+                        let d_ref = reference.as_ref().and_then(|r| htlc_digest(r, &redeem, amount, c.ctype));
+                        let redeem_s = ScriptBuf::from(redeem.clone());
+                        let ows = ScriptBuf::new();
+                        let mut decoded: Vec<Option<(u32, bool, u32, Vec<u8>)>> = vec![];
+                        for (mode, live) in lives.iter().enumerate() {
+                            let live = match live {
+                                Some(l) => l,
+                                None => continue,
+                            };
+                            // what the validator hands back (fee rate, direction, expiry, digest to sign)
+                            let dec = catch_unwind(AssertUnwindSafe(|| {
+                                live.node.with_channel(&live.channel_id, |chan| {
+                                    let txkeys = if holder_side {
+                                        TxCreationKeys::derive_new(
+                                            &secp,
+                                            &hpoint,
+                                            &a.holder.delayed_payment_basepoint,
+                                            &a.holder.htlc_basepoint,
+                                            &cp.revocation_basepoint,
+                                            &cp.htlc_basepoint,
+                                        )
+                                    } else {
+                                        chan.make_counterparty_tx_keys(&k.pcp)
+                                    };
+                                    Ok(chan
+                                        .validator()
+                                        .decode_and_validate_htlc_tx(!holder_side, &chan.setup, &txkeys, &tx, &redeem_s, amount, &ows)
+                                        .ok()
+                                        .map(|(fr, h, sh, _)| (fr, h.offered, h.cltv_expiry, sh.to_byte_array().to_vec())))
+                                })
+                            }));
+                            decoded.push(match dec {
+                                Ok(Ok(x)) => x,
+                                _ => None,
+                            });
+                            // the signature
+                            let r = catch_unwind(AssertUnwindSafe(|| {
+                                live.node.with_channel(&live.channel_id, |chan| {
+                                    if holder_side {
+                                        chan.sign_holder_htlc_tx(&tx, 0, Some(hpoint), &redeem_s, amount, &ows)
+                                    } else {
+                                        chan.sign_counterparty_htlc_tx(&tx, &k.pcp, &redeem_s, amount, &ows)
+                                    }
+                                })
+                            }));
+                            let entry = if holder_side { "sign_holder_htlc_tx" } else { "sign_counterparty_htlc_tx" };
+                            match r {
+                                Ok(Ok(ts)) => {
+                                    htlc_sig_checks += 1;
+                                    *dist.entry(format!("htlc-p1-signed:{}:filter{}", what, mode)).or_insert(0) += 1;
+                                    let msg_of = |d: &[u8; 32]| Message::from_digest(*d);
+                                    let on_ref = d_ref.map(|d| secp.verify_ecdsa(&msg_of(&d), &ts.sig, &key).is_ok()).unwrap_or(false);
+                                    let on_sup = d_sup.map(|d| secp.verify_ecdsa(&msg_of(&d), &ts.sig, &key).is_ok()).unwrap_or(false);
+                                    let detail = json!({"entry": entry, "filter_mode": mode, "change": what, "supplied_tx": hexs(&serialize(&tx)),
+                                                        "reference_tx": reference.as_ref().map(|r| hexs(&serialize(r))),
+                                                        "redeemscript": hexs(&redeem), "amount_sat": amount});
+                                    if !on_ref {
+                                        viol.push(json!({"what": "raw HTLC entry point: the returned signature does not verify under the channel's HTLC key on the BOLT-3 second-stage transaction rebuilt from the channel's parameters", "detail": detail}));
+                                    }
+                                    if d_sup != d_ref {
+                                        viol.push(json!({"what": "raw HTLC entry point: a signature was returned although the supplied transaction is not the rebuilt BOLT-3 one (digests differ)", "detail": detail, "verifies_on_supplied": on_sup}));
+                                    }
+                                }
+                                Ok(Err(_)) => {
+                                    *dist.entry(format!("htlc-p1-refused:{}", what)).or_insert(0) += 1;
+                                    if what == "canonical" && mode == 0 {
+                                        *dist.entry("htlc-p1-canonical-refused".into()).or_insert(0) += 1;
+                                    }
+                                }
+                                Err(_) => {
+                                    *dist.entry(format!("htlc-p1-panic:{}", last_panic())).or_insert(0) += 1;
+                                }
+                            }
+                        }
+                        // the answer must not depend on the filter
+                        if decoded.windows(2).any(|w| w[0] != w[1]) {
+                            viol.push(json!({"what": "decode_and_validate_htlc_tx answers differently under different policy filters",
+                                             "change": what, "holder_side": holder_side, "answers": decoded.iter().map(|d| d.as_ref().map(|x| json!([x.0, x.1, x.2, hexs(&x.3)]))).collect::<Vec<_>>(),
+                                             "supplied_tx": hexs(&serialize(&tx))}));
+                        }
+                        // the most permissive filter's answer goes to the model
+                        let last = decoded.last().cloned().flatten();
+                        let term = format!(
+                            "({}, @R{}@, {}, {})",
+                            tx_coq(&tx),
+                            hexs(&redeem),
+                            amount,
+                            last.as_ref()
+                                .map(|(fr, off, cl, d)| format!("Some ({}, {}, {}, {})", fr, coq_bool(*off), cl, hx(d)))
+                                .unwrap_or("None".into())
+                        );
+                        if holder_side {
+                            reqs_h.push(term)
+                        } else {
+                            reqs_cp.push(term)
+                        }
+                        descs.push(json!([holder_side, what]));
+                    }
+                }
+            }
+            emit("HTLC", json!({"idx": idx, "case": case_json(&c), "coq_cp": [s_cp, k_cp], "coq_holder": [s_h, k_h],
+                                "reqs_cp": reqs_cp, "reqs_holder": reqs_h, "descs": descs}));
         }
         // restart: the signer restored from the store must give the same answers.  The channel was
         // persisted by the accepted phase-2 request; a retry of the same commitment is admitted
